@@ -1,7 +1,11 @@
-(* UNCHECKED DRAFT (round 7, not compiled, not part of the build): continuation of coq/Cache/C15Latest.v
-   from update_meta_exports to latest_history.  The sentence `exact (generate_meta_updates_keeps ...)` in
-   update_meta_exports did not return within 150 s (conversion of [keeps] against the unfolded conjunction);
-   state update_meta_exports with [keeps] itself and `apply`.  Nothing below was type-checked. *)
+(** C15, history form of latest_is_max (round 7, second part; continues C15Latest.v).
+
+    After every history of calls the latest timestamp of every target is the
+    greatest timestamp of the accepted tracked notifications handed to it since
+    its last Reset / Add / Remove, and that is what UpdateMetadata exports. *)
+From Gnmi Require Import Base.Prelude CTree.CTreeModel Path.PathModel Cache.CacheModel
+  Cache.MultiCache Cache.C14Proofs Cache.C14Check Cache.C15Check Cache.C15Proofs Cache.C15Latest.
+Local Open Scope Z_scope.
 
 (** updateMeta: the latest timestamp stays, and is what is exported *)
 Definition export_latest (t : target) : target :=
@@ -15,13 +19,19 @@ Proof.
   split; [reflexivity|]. unfold gl, export_latest. cbn [t_meta set_meta set_lat]. rewrite gi_set_int. reflexivity.
 Qed.
 
+Lemma gl_eq t : gl t = gi (t_meta t) md_latest_ts.
+Proof. reflexivity. Qed.
+
+Theorem update_meta_keeps t now :
+  keeps (t_ts t) (ts_unixnano (t_ts t)) (fst (fst (update_meta t now))).
+Proof.
+  rewrite update_meta_unfold. apply generate_meta_updates_keeps. apply export_latest_keeps.
+Qed.
+
 Theorem update_meta_exports t now :
   t_ts (fst (fst (update_meta t now))) = t_ts t /\
   gi (t_meta (fst (fst (update_meta t now)))) md_latest_ts = ts_unixnano (t_ts t).
-Proof.
-  rewrite update_meta_unfold.
-  exact (generate_meta_updates_keeps _ _ (export_latest t) now (export_latest_keeps t)).
-Qed.
+Proof. destruct (update_meta_keeps t now) as [H1 H2]. rewrite gl_eq in H2. split; [exact H1|exact H2]. Qed.
 
 (** Reset: the latest timestamp is forgotten, the sentinel is exported *)
 Theorem target_reset_exports t now :
@@ -34,11 +44,15 @@ Proof.
     cbn [fst snd t_ts t_meta set_tree set_meta set_ts] in *; exact H.
 Qed.
 
-Lemma tracks_meta_noti name now k v : tracks_ts (meta_noti name now k v) = false.
+(** (for a target named "" the index list of a metadata notification is
+    ["meta"; k] and its second element is [k]: Sync / Connect on such a target
+    WOULD be tracked -- hence [name <> ""] below, as in leafcount_is_tree) *)
+Lemma tracks_meta_noti name now k v : name <> ""%string -> tracks_ts (meta_noti name now k v) = false.
 Proof.
+  intros Hne.
   unfold tracks_ts, raw_index, meta_noti, to_strings, nonempty.
   cbn [n_upd n_prefix n_atomic u_path gp_of_opt gp_target gp_origin gp_elems gp_element].
-  destruct (String.eqb name ""); reflexivity.
+  destruct (String.eqb_spec name ""); [contradiction|reflexivity].
 Qed.
 
 Lemma tracks_delete_noti name o now p : tracks_ts (delete_noti name o now p) = false.
@@ -88,18 +102,18 @@ Definition linv (name : string) (c : cache) (acc : list Z) : Prop :=
   forall t, assoc name (c_targets c) = Some t -> t_ts t = zmax_list acc.
 
 Lemma on_target_linv name c x f c' gs r acc :
-  (forall t t' fd r', f t = (t', fd, r') -> t_ts t' = t_ts t) ->
+  (name = x -> forall t t' fd r', f t = (t', fd, r') -> t_ts t' = t_ts t) ->
   linv name c acc -> cache_on_target c x f = (c', gs, r) -> linv name c' acc.
 Proof.
   intros Hf Hl. unfold cache_on_target. destruct (assoc x (c_targets c)) as [t0|] eqn:Ea.
   - destruct (f t0) as [[t1 fd] r1] eqn:Ef. intros H; inversion H; subst.
     intros t. cbn [c_targets set_target]. rewrite assoc_aset.
     destruct (String.eqb_spec name x) as [->|Hne]; [|apply Hl].
-    intros Ht; inversion Ht; subst. rewrite (Hf _ _ _ _ Ef). now apply Hl.
+    intros Ht; inversion Ht; subst. rewrite (Hf eq_refl _ _ _ _ Ef). now apply Hl.
   - intros H; inversion H; subst. exact Hl.
 Qed.
 
-Lemma update_metadata_linv name now acc : forall l st,
+Lemma update_metadata_linv name now acc : forall (l : list (string * target)) (st : cache * list notif * option N),
   linv name (fst (fst st)) acc ->
   linv name (fst (fst (fold_left (fun st kt =>
     match st with
@@ -134,9 +148,9 @@ Qed.
 
 (** one call *)
 Theorem cstep_linv name c o acc :
-  cinv c -> linv name c acc -> linv name (fst (fst (cstep c o))) (hist_step name c o acc).
+  name <> ""%string -> cinv c -> linv name c acc -> linv name (fst (fst (cstep c o))) (hist_step name c o acc).
 Proof.
-  intros Hc Hl. destruct o; cbn [cstep hist_step]; try exact Hl.
+  intros Hnm Hc Hl. destruct o; cbn [cstep hist_step]; try exact Hl.
   - (* MUpd *)
     unfold cache_gnmi_update. destruct (n_prefix n) as [pr|]; [|exact Hl].
     destruct (assoc (gp_target pr) (c_targets c)) as [t0|] eqn:Ea.
@@ -166,25 +180,24 @@ Proof.
   - (* MSync *)
     destruct (cache_sync c now tgt) as [[c1 gs] r1] eqn:E. cbn [fst]. unfold cache_sync in E.
     eapply on_target_linv; [|exact Hl|exact E].
-    intros t t' fd r'. apply untracked_ts, tracks_meta_noti.
+    intros -> t t' fd r'. apply untracked_ts, tracks_meta_noti, Hnm.
   - (* MConnect *)
     destruct (cache_connect c now tgt) as [[c1 gs] r1] eqn:E. cbn [fst]. unfold cache_connect in E.
     eapply on_target_linv; [|exact Hl|exact E].
-    intros t t' fd r'. cbv beta.
+    intros -> t t' fd r'. cbv beta.
     destruct (target_gnmi_update t now (meta_noti tgt now md_connected (TBool true))) as [[t1 f1] r2] eqn:E1.
-    pose proof (untracked_ts _ _ _ _ _ _ (tracks_meta_noti _ _ _ _) E1) as H1.
+    pose proof (untracked_ts _ _ _ _ _ _ (tracks_meta_noti _ _ _ _ Hnm) E1) as H1.
     destruct (target_gnmi_update t1 now (delete_noti tgt "" now [md_root; md_connect_error])) as [[t2 f2] r3] eqn:E2.
     pose proof (untracked_ts _ _ _ _ _ _ (tracks_delete_noti _ _ _ _) E2) as H2.
     destruct r2; intros H; inversion H; subst; congruence.
   - (* MConnectError *)
     destruct (cache_connect_error c now tgt msg) as [[c1 gs] r1] eqn:E. cbn [fst]. unfold cache_connect_error in E.
     eapply on_target_linv; [|exact Hl|exact E].
-    intros t t' fd r'. apply untracked_ts, tracks_meta_noti.
+    intros -> t t' fd r'. apply untracked_ts, tracks_meta_noti, Hnm.
   - (* MUpdateMeta *)
     pose proof (update_metadata_linv name now acc (c_targets c) (c, [], None) Hl) as H.
     unfold cache_update_metadata.
-    match goal with |- linv _ (fst (fst (let '(_, _, _) := ?x in _))) _ => destruct x as [[c1 l1] p1] end.
-    exact H.
+    destruct (fold_left _ (c_targets c) (c, [], None)) as [[c1 l1] p1]. exact H.
   - (* MUpdateSize *)
     intros t. cbn [fst]. unfold cache_update_size. cbn [c_targets].
     rewrite (assoc_map_snd (fun kt => target_update_size (snd kt)
@@ -198,10 +211,10 @@ Proof.
     destruct (cache_remove c now x) as [c1 l]. exact H.
 Qed.
 
-Theorem run_linv name : forall ops c acc,
+Theorem run_linv name : name <> ""%string -> forall ops c acc,
   cinv c -> linv name c acc -> linv name (crun c ops) (tracked_from name c ops acc).
 Proof.
-  induction ops as [|o ops IH]; intros c acc Hc Hl; [exact Hl|].
+  intros Hnm. induction ops as [|o ops IH]; intros c acc Hc Hl; [exact Hl|].
   unfold crun. cbn [fold_left tracked_from]. fold (crun (fst (fst (cstep c o))) ops).
   apply IH; [now apply cstep_cinv|now apply cstep_linv].
 Qed.
@@ -224,15 +237,17 @@ Qed.
     notifications handed to it since its last Reset / Add / Remove ([None] =
     time.Time{} when there is none) *)
 Theorem latest_history cfg names ops name t :
+  name <> ""%string ->
   assoc name (c_targets (crun (new_cache cfg names) ops)) = Some t ->
   t_ts t = zmax_list (tracked_since_reset name (new_cache cfg names) ops).
-Proof. apply (run_linv name ops _ [] (cinv_new cfg names) (linv_new name cfg names)). Qed.
+Proof. intros Hnm. apply (run_linv name Hnm ops _ [] (cinv_new cfg names) (linv_new name cfg names)). Qed.
 
 (** ... and what the next UpdateMetadata exports for that target is that
     maximum, the documented sentinel time.Time{}.UnixNano() when nothing was
     accepted (known finding KF-C15-2; Reset itself exports the sentinel:
     [target_reset_exports]) *)
 Theorem latest_history_exported cfg names ops name t now :
+  name <> ""%string ->
   assoc name (c_targets (crun (new_cache cfg names) ops)) = Some t ->
   gi (t_meta (fst (fst (update_meta t now)))) md_latest_ts =
   match zmax_list (tracked_since_reset name (new_cache cfg names) ops) with
@@ -240,7 +255,7 @@ Theorem latest_history_exported cfg names ops name t now :
   | None => zero_time_unixnano
   end.
 Proof.
-  intros Ht. rewrite (proj2 (update_meta_exports t now)), (latest_history _ _ _ _ _ Ht). reflexivity.
+  intros Hnm Ht. rewrite (proj2 (update_meta_exports t now)), (latest_history _ _ _ _ _ Hnm Ht). reflexivity.
 Qed.
 
 (** [zmax_list] is the maximum: a member, and an upper bound *)
@@ -268,4 +283,139 @@ Proof.
   destruct (fold_max_ge l x) as [H1 H2]. split.
   - destruct (fold_max_in l x) as [H|H]; [left; now rewrite H|now right].
   - intros y [<-|Hy]; [exact H1|now apply H2].
+Qed.
+
+(** Example: a history with a single update, a multi notification whose first
+    unit is stale (tracked, accepted through its second unit), one whose first
+    unit is a metadata leaf (accepted, NOT tracked, although newest), lifecycle
+    calls, a refresh, an older accepted update, a delete; then Reset and one
+    more update.  Target "u" sees nothing. *)
+Definition exh_pfx : option gpath := Some (GPath "t" "" [] []).
+Definition exh_u (p : list string) (v : Z) : update := Upd (Some (gp_of_names p)) (Some (TInt v)) 0.
+Definition exh_ops1 : list mop :=
+  [MUpd 1 (Notif 5 exh_pfx None [exh_u ["a"; "b"] 1] [] false);
+   MUpd 2 (Notif 7 exh_pfx None [exh_u ["a"; "b"] 2; exh_u ["a"; "c"] 1] [] false);
+   MUpd 3 (Notif 4 exh_pfx None [exh_u ["a"; "b"] 3; exh_u ["a"; "d"] 1] [] false);
+   MUpd 4 (Notif 9 exh_pfx None [exh_u ["meta"; "x"] 1; exh_u ["a"; "e"] 1] [] false);
+   MSync 5 "t"; MConnectError 6 "t" "boom"; MConnect 7 "t"; MUpdateMeta 8;
+   MUpd 9 (Notif 6 exh_pfx None [exh_u ["a"; "f"] 1] [] false);
+   MUpd 10 (Notif 20 exh_pfx None [] [gp_of_names ["a"; "f"]] false)].
+Definition exh_ops2 : list mop :=
+  exh_ops1 ++ [MReset 11 "t"; MUpd 12 (Notif 3 exh_pfx None [exh_u ["a"; "b"] 1] [] false)].
+Definition exh_c0 : cache := new_cache (Cfg 0 true []) ["t"; "u"].
+
+Example ex_latest_history :
+  tracked_since_reset "t" exh_c0 exh_ops1 = [5; 7; 4; 6] /\
+  option_map t_ts (assoc "t" (c_targets (crun exh_c0 exh_ops1))) = Some (Some 7) /\
+  tracked_since_reset "t" exh_c0 exh_ops2 = [3] /\
+  option_map t_ts (assoc "t" (c_targets (crun exh_c0 exh_ops2))) = Some (Some 3) /\
+  tracked_since_reset "u" exh_c0 exh_ops2 = [] /\
+  option_map t_ts (assoc "u" (c_targets (crun exh_c0 exh_ops2))) = Some None.
+Proof. vm_compute. repeat split; reflexivity. Qed.
+
+(** the hypothesis [name <> ""] is needed: on a target named "" the index list
+    of the metadata notification of Sync is ["meta"; "sync"], whose second
+    element is not "meta": Sync moves the latest timestamp *)
+Theorem latest_history_empty_name_refuted :
+  exists cfg names ops t,
+    assoc ""%string (c_targets (crun (new_cache cfg names) ops)) = Some t /\
+    t_ts t <> zmax_list (tracked_since_reset "" (new_cache cfg names) ops).
+Proof.
+  exists (Cfg 0 true []), [""%string], [MSync 5 ""%string].
+  destruct (assoc ""%string (c_targets (crun (new_cache (Cfg 0 true []) [""%string]) [MSync 5 ""%string])))
+    as [t|] eqn:E; vm_compute in E; [|discriminate].
+  exists t. split; [reflexivity|]. inversion E; subst. vm_compute. discriminate.
+Qed.
+
+(** * K_P (tag 5) follows the code: tracking and acceptance *)
+
+(** K_P's tracked test is the model's, for every notification *)
+Theorem kp_tracked_agrees n : kp_tracked n = tracks_ts n.
+Proof.
+  unfold kp_tracked, first_unit, upd_index, tracks_ts, raw_index, join_prefix_and_path.
+  destruct (n_upd n) as [|u us] eqn:E; [rewrite E; reflexivity|].
+  cbn [n_upd n_prefix n_atomic u_path].
+  destruct (n_atomic n);
+    match goal with |- context [match ?l ++ ?r with _ => _ end] => destruct (l ++ r) as [|x [|y l']] end;
+    reflexivity.
+Qed.
+
+(** gnmiRemove returns no error: every error of a multi notification comes from
+    an update unit *)
+Lemma gnmi_remove_not_err t n t' e : gnmi_remove t n <> (t', Err e).
+Proof.
+  intros H. unfold gnmi_remove in H. destruct (n_del n) as [|d ds]; [discriminate|].
+  destruct (join_path (n_prefix n) (Some d)) as [p|e'|w] eqn:Ej;
+    [|exact (join_path_not_err _ _ _ Ej)|discriminate].
+  cbv zeta in H. revert H. repeat break_match; discriminate.
+Qed.
+
+Lemma multi_delete_step_errs n a d : a_errs (multi_delete_step n a d) = a_errs a.
+Proof.
+  unfold multi_delete_step. destruct (a_panic a); [reflexivity|]. cbv zeta.
+  destruct (gnmi_remove (add_int (a_t a) md_update_count 1) (clone_with_delete n d)) as [t1 [rm|e|w]] eqn:E;
+    try reflexivity.
+  exfalso. exact (gnmi_remove_not_err _ _ _ _ E).
+Qed.
+
+Lemma fold_delete_errs n ds : forall a, a_errs (fold_left (multi_delete_step n) ds a) = a_errs a.
+Proof. induction ds as [|d ds IH]; cbn; intros a; [reflexivity|]. now rewrite IH, multi_delete_step_errs. Qed.
+
+Lemma multi_delete_step_panicked n a d : a_panic a <> None -> multi_delete_step n a d = a.
+Proof. unfold multi_delete_step. destruct (a_panic a); [reflexivity|congruence]. Qed.
+
+Lemma fold_delete_panicked n ds : forall a, a_panic a <> None -> fold_left (multi_delete_step n) ds a = a.
+Proof. induction ds as [|d ds IH]; cbn; intros a Ha; [reflexivity|]. rewrite multi_delete_step_panicked; auto. Qed.
+
+Lemma multi_update_step_cases now n a u :
+  a_panic (multi_update_step now n a u) = None ->
+  (exists e, a_errs (multi_update_step now n a u) = a_errs a ++ [e] /\
+             a_ok (multi_update_step now n a u) = a_ok a) \/
+  (a_errs (multi_update_step now n a u) = a_errs a /\ a_ok (multi_update_step now n a u) = true).
+Proof.
+  unfold multi_update_step. destruct (a_panic a) eqn:Ep; [intros H; congruence|].
+  destruct (gnmi_update1 (a_t a) now (clone_with_update n u)) as [t1 [[nd|]|e|w]];
+    cbn [a_panic a_errs a_ok]; intros H; try discriminate.
+  - right. split; reflexivity.
+  - right. split; reflexivity.
+  - left. exists e. split; reflexivity.
+Qed.
+
+Lemma fold_update_count now n us : forall a,
+  a_panic (fold_left (multi_update_step now n) us a) = None ->
+  (List.length (a_errs (fold_left (multi_update_step now n) us a)) <= List.length (a_errs a) + List.length us)%nat /\
+  (a_ok (fold_left (multi_update_step now n) us a) = true <->
+   a_ok a = true \/
+   (List.length (a_errs (fold_left (multi_update_step now n) us a)) < List.length (a_errs a) + List.length us)%nat).
+Proof.
+  induction us as [|u us IH]; intros a Hp; cbn [fold_left List.length] in *.
+  - split; [lia|]. split; [auto|intros [H|H]; [exact H|lia]].
+  - assert (Hs : a_panic (multi_update_step now n a u) = None).
+    { destruct (a_panic (multi_update_step now n a u)) eqn:E; [|reflexivity].
+      rewrite fold_update_panicked in Hp by congruence. congruence. }
+    destruct (IH _ Hp) as [Hle Hiff].
+    destruct (multi_update_step_cases now n a u Hs) as [(e & He & Ho)|[He Ho]];
+      rewrite He in Hle, Hiff; rewrite Ho in Hiff; rewrite ?app_length in Hle, Hiff; cbn [List.length] in Hle, Hiff.
+    + split; [lia|]. rewrite Hiff. split; (intros [H|H]; [now left|right; lia]).
+    + split; [lia|]. split; [intros _; right; lia|intros _; apply Hiff; now left].
+Qed.
+
+(** K_P's acceptance test of a multi notification -- "fewer errors returned
+    than updates submitted" -- is exactly the updateTS flag of the code (no
+    panic) *)
+Theorem multi_accept_is_fewer_errors t now n us ds :
+  a_panic (fold_left (multi_delete_step n) ds
+             (fold_left (multi_update_step now n) us (Acc t [] [] false None))) = None ->
+  (a_ok (fold_left (multi_delete_step n) ds
+           (fold_left (multi_update_step now n) us (Acc t [] [] false None))) = true <->
+   (List.length (a_errs (fold_left (multi_delete_step n) ds
+                          (fold_left (multi_update_step now n) us (Acc t [] [] false None))))
+    < List.length us)%nat).
+Proof.
+  intros Hp. rewrite fold_delete_ok, fold_delete_errs.
+  assert (Hp1 : a_panic (fold_left (multi_update_step now n) us (Acc t [] [] false None)) = None).
+  { destruct (a_panic (fold_left (multi_update_step now n) us (Acc t [] [] false None))) eqn:E; [|reflexivity].
+    rewrite fold_delete_panicked in Hp by congruence. congruence. }
+  destruct (fold_update_count now n us _ Hp1) as [_ Hiff]. cbn [a_errs a_ok List.length] in Hiff.
+  rewrite Hiff. split; [intros [H|H]; [discriminate|exact H]|intros H; right; exact H].
 Qed.
